@@ -46,7 +46,8 @@ def gen_request(rng, sid, tier):
     off = rng.randrange(4096); body = PAT[off:off + n]
     framing = "none" if method in (b"GET", b"DELETE") else rng.choice(["cl", "cl", "chunked"])
     seg = rng.choice(["whole", "whole", "pieces", "small-chunks-first"])
-    rq = dict(kind=kind, sid=sid, method=method, target=target, path=path, query=fullq, hdrs=hdrs, body=body, framing=framing, seg=seg)
+    rq = dict(kind=kind, sid=sid, method=method, target=target, path=path, query=fullq, hdrs=hdrs, body=body, framing=framing, seg=seg,
+              host=rng.choice([b"h.example", b"h.example", b"h.example:8080"]))
     # every sixth CGI-type request or so travels over HTTP/2 instead (bodies that fit the initial flow-control window; HTTP/2 has no chunked coding)
     rq["h2"] = kind in ("fcgi", "scgi") and framing in ("none", "cl") and len(body) <= 60000 and rng.random() < 0.18
     return rq
@@ -54,7 +55,7 @@ def gen_request(rng, sid, tier):
 
 def wire_request(rq, rng):
     """-> list of byte segments to send one after another"""
-    h = rq["method"] + b" " + rq["target"] + b" HTTP/1.1\r\nHost: h.example\r\n"
+    h = rq["method"] + b" " + rq["target"] + b" HTTP/1.1\r\nHost: " + rq.get("host", b"h.example") + b"\r\n"
     for k, v in rq["hdrs"]: h += k + b": " + v + b"\r\n"
     body = rq["body"]
     if rq["framing"] == "cl":
@@ -89,7 +90,7 @@ def wire_request(rq, rng):
 def expected_http_vars(rq):
     """multiset of (NAME, value) for request header fields"""
     merged = []
-    for k, v in [(b"Host", b"h.example")] + rq["hdrs"] + ([(b"Content-Length", b"%d" % len(rq["body"]))] if rq["framing"] == "cl" else []):
+    for k, v in [(b"Host", rq.get("host", b"h.example"))] + rq["hdrs"] + ([(b"Content-Length", b"%d" % len(rq["body"]))] if rq["framing"] == "cl" else []):
         for i, (k2, v2) in enumerate(merged):
             if k2.lower() == k.lower():
                 if v: merged[i] = (k2, v2 + (b"; " if k.lower() == b"cookie" else b", ") + v if v2 else v)     # RFC 6265 5.4: cookie-pairs are joined with "; "
@@ -136,6 +137,11 @@ def judge_cgi(rq, rec):
     for k in server_defined:
         if len(d.get(k, [])) > 1: return "server-defined variable %s appears %d times" % (k.decode(), len(d[k]))
     if d.get(b"REMOTE_ADDR") != [b"127.0.0.1"]: return "REMOTE_ADDR %r" % d.get(b"REMOTE_ADDR")
+    # RFC 3875 4.1.14 / 4.1.15: SERVER_NAME is the host the request was directed to (no port), SERVER_PORT the port it arrived on
+    hostname = rq.get("host", b"h.example").split(b":")[0]
+    if d.get(b"SERVER_NAME") != [hostname]: return "meta-variable SERVER_NAME is %r, RFC 3875 says %r (Host: %r)" % (d.get(b"SERVER_NAME"), hostname, rq.get("host"))
+    if rq.get("server_port") and d.get(b"SERVER_PORT") != [b"%d" % rq["server_port"]]: return "meta-variable SERVER_PORT is %r, the request arrived on port %d" % (d.get(b"SERVER_PORT"), rq["server_port"])
+    if rq.get("client_port") and d.get(b"REMOTE_PORT") != [b"%d" % rq["client_port"]]: return "REMOTE_PORT is %r, the client's port is %d" % (d.get(b"REMOTE_PORT"), rq["client_port"])
     return None
 
 
@@ -197,7 +203,7 @@ def model_check(rq, rec, model):
     """the modelled variables and the PARAMS encoding, through the extracted model"""
     if rq["kind"] != "fcgi" or rec is None or rec["pairs"] is None: return None
     merged = []
-    for k, v in [(b"Host", b"h.example")] + rq["hdrs"] + ([(b"Content-Length", b"%d" % len(rq["body"]))] if rq["framing"] == "cl" else []):
+    for k, v in [(b"Host", rq.get("host", b"h.example"))] + rq["hdrs"] + ([(b"Content-Length", b"%d" % len(rq["body"]))] if rq["framing"] == "cl" else []):
         for i, (k2, v2) in enumerate(merged):
             if k2.lower() == k.lower():
                 if v: merged[i] = (k2, v2 + (b"; " if k.lower() == b"cookie" else b", ") + v if v2 else v)      # request.c joins repeated Cookie fields with "; " (RFC 6265 5.4)
@@ -227,11 +233,12 @@ def run_mode(ctx, stream, reqs, sanitize=False):
             be = {"fcgi": fb, "scgi": sb, "px": hb}[rq["kind"]]
             with be.lock: n0 = len(be.requests)
             if rq.get("h2"):
+                rq["client_port"] = None; rq["server_port"] = s.port
                 try:
                     c = h2c.Conn(s.port, timeout=15.0)
                     try:
                         hd = [(k, v) for k, v in rq["hdrs"]] + ([(b"content-length", b"%d" % len(rq["body"]))] if rq["framing"] == "cl" else [])
-                        st = c.wait([c.send_request(rq["method"], rq["target"], headers=hd, body=rq["body"] if rq["framing"] == "cl" else None, authority=b"h.example")])[0]
+                        st = c.wait([c.send_request(rq["method"], rq["target"], headers=hd, body=rq["body"] if rq["framing"] == "cl" else None, authority=rq.get("host", b"h.example"))])[0]
                     finally: c.close()
                     data = b"HTTP/2 " + (dict(st["headers"]).get(b":status", b"?") if st and st.get("headers") else b"no-response") + b"\r\n\r\n"
                 except Exception as e: data = b"<<error %s>>" % str(e).encode()
@@ -245,6 +252,7 @@ def run_mode(ctx, stream, reqs, sanitize=False):
                 if not s.alive(): break
                 continue
             so = s.connect(timeout=15.0)
+            rq["client_port"] = so.getsockname()[1]; rq["server_port"] = s.port
             try:
                 for i, sg in enumerate(rq["wire"]):
                     so.sendall(sg)
